@@ -30,12 +30,28 @@ LEG = {
  'zzC03ClientGate': "Client gate: every call the client can receive is released with Async before the method layer runs (so a parked sampling/elicitation handler never holds up a ping), notifications never.",
  'zzConnReaderResponse': "Reader exit under every way reading can end (transport error, clean or wrapped EOF): nothing stays tracked and every request still in flight is cancelled.",
  'zzC04Preempt': "Preempt decodes the requestId of notifications/cancelled for every int64 and string id and cancels exactly that id (integers beyond 2^53 included: defect D9, fixed).",
+ 'zzC02JSONBatch': "JSON response mode: the answers to a POST of several calls are flushed together once the last one is written — each payload is the encoding of its own message (a pooled or reused encode buffer would alias them), in request order.",
+ 'zzC13ViaSession': "The same keep-alive oracle through the real ServerSession/ClientSession.startKeepalive wrappers (Ping and Close overridden), including pings that cannot be delivered at all.",
+ 'zzC18CapabilityGates': "list-changed fan-out per capability: a disabled capability notifies nobody, an enabled one every entitled session; client-side fan-out to its sessions.",
+ 'zzC18HandshakeEra': "A session that went through the real initialize handshake is a legacy session whatever revision the client asked for (2026-07-28, newer, unknown, empty): the answer is a supported legacy version, and the session is among the recipients of list-changed and resource-updated notifications without subscriptions/listen and may be sent requests (defect D11, fixed).",
+ 'zzC03ReadBatch': "readBatch: a batch of 1..16 messages (small ones every mix of call/notification/response, larger ones by pattern — library sorts change algorithm and stability with the length) comes back in exactly the order of the array; a single message, nothing, blanks only, an empty array, a non-message: an error, never a panic.",
+ 'zzC05CmdClose': "CommandTransport shutdown (pipeRWC.Close) against a model child with every exit behaviour (on EOF, on SIGTERM, on SIGKILL, never), failing signals, and waits racing timers that may have fired already (bounded scheduler): Close never hangs, escalates EOF, then SIGTERM, then SIGKILL at most once each and in that order, reports success only for a child that is gone and gives up only after SIGKILL.",
+ 'zzC14Repeat': "One middleware instance over a history of 3 (thorough 5) requests of any mix (no credential, unknown token, token lacking a scope, good token): status, challenge (exactly one WWW-Authenticate value) and admission of each request are those of the same request served first.",
+ 'zzC17IterAnyPager': "paginate against ANY pager (1-3 pages of 0-2 items each, cursors on all but the last — an empty page that still carries a cursor included): the iterator yields what manual paging yields, fetches every page exactly once and follows the cursor each page names.",
+ 'zzC11Stateless': "Stateless handler under every configuration (event store, JSON/SSE answers, session timeout) and every version header — the known ones, an unknown legacy-era one (400, nothing served) and one newer than 2026-07-28, which must reach the session layer because that is where -32022 with the supported list is produced (C06).",
+ 'zzC09Resume': "The caller of the pending call may give up while a reconnect is on its way (the GET then reports the cancellation or, racing it, an unrelated transport error): whatever the abandoned reconnect ran into, the connection does not fail (C04).",
+ 'zzC19StringID': "String ids: the JSON text of a string begins and ends with a quote (so hand-written fast paths that peek at the first byte are followed), and unquoting it by Go's rules fails on JSON-only escapes — a peer may write '/' as '\\/' and astral characters as surrogate pairs.",
+ 'zzC16Wrapper': "The handler may also pre-set StructuredContent by hand: what the client gets is still the typed output, defaulted and validated.",
+ 'zzC18SubscribeHistory': "Histories of subscribe / unsubscribe / disconnect (4 steps, thorough 5) over two sessions and two URIs: the recipients of a resource update are exactly the sessions whose last action on that URI was a subscribe and that are still connected.",
+ 'zzC12Agreement': "Every header value the client emits is transmittable over HTTP as is (no control characters other than HTAB, no DEL — net/http refuses to send such a value).",
  'zzC14Decision': "The HTTP method (any of nine, symbolic) and ambient headers (CORS preflight markers, forwarding headers, cookies; optional map entries) are arbitrary and must not influence the decision; expirations up to ~35 000 years ahead (time.Duration saturation).",
 }
 ADD_ASSUME = {
  'C14': ["expiration = any instant up to 2^40 s after the model epoch (beyond what a time.Duration holds); Sub/Since/Until saturate like the library, Add is exact"],
  'C16': ["setSchema leg: jsonschema.ForType yields a fresh schema per call, (*Schema).Resolve a fresh Resolved remembering its schema, remarshal a fresh schema standing for the raw text; reflect.TypeFor/Kind/Elem/Zero are engine models"],
  'C19': ["result-type leg: JSON text between two different wire structs = member matching as encoding/json defines it (validated natively by tools/selftest.sh, zzSelfJSON)"],
+ 'C05': ["pipeRWC.Close leg: exec.Cmd.Wait, os.Process.Signal/Kill and the child's stdin are a model child; time.After/NewTimer are the engine's default timers (already fired: any finite duration may elapse before another goroutine runs)"],
+ 'C10': ["bytes.Buffer runs as real code; sync.Pool = LIFO stash (a pooled object is handed out again at once); json.Encoder.Encode = the uninterpreted JSON text plus a newline written to the encoder's writer"],
  'C09': ["client POST leg: http.Client.Do is a scripted server drawing one answer per request; oauth handler and token source are stubs returning every outcome of their contract"],
 }
 ADD_OUTSIDE = {
